@@ -78,11 +78,11 @@ KEYS = [("key%d" % i).encode() for i in range(24)]
 
 
 def scenario(rng, quick):
-    """(use_vpc, chunk choices, steps): a step is ('adv', entries) | ('error',) | ('refuse', entry) | ('tick', seconds)"""
+    """(use_vpc, chunk choices, steps): a step is ('adv', entries) | ('error',) | ('refuse', entry) | ('accept', entry) | ('tick', seconds) | ('traffic',)"""
     steps = []
     cur = rng.sample(UNIVERSE, rng.randrange(1, 7))
     steps.append(("adv", list(cur)))
-    for _ in range(rng.randrange(1, 5)):
+    for _ in range(rng.randrange(1, 9)):
         r = rng.random()
         if r < 0.15:
             steps.append(("error",))
@@ -90,6 +90,10 @@ def scenario(rng, quick):
             steps.append(("refuse", rng.choice(cur)))
         elif r < 0.4:
             steps.append(("tick", rng.choice([1, 61, 200])))
+        elif r < 0.5:
+            steps.append(("traffic",))
+        elif r < 0.55:
+            steps.append(("accept", rng.choice(UNIVERSE)))
         else:
             if rng.random() < 0.5 and len(cur) > 1:
                 cur = rng.sample(cur, rng.randrange(1, len(cur)))                      # scale down
@@ -115,9 +119,33 @@ def run_scenario(sc):
     clock = VClock([], 1000)
     saved = (H.time, A.time)
     H.time = A.time = clock
+    client = None
+    advertised = []
+
+    def observe(i):
+        # every key goes to exactly one advertised node; nothing reaches a withdrawn node
+        cl.contacts = []
+        for k in KEYS:
+            try:
+                client.set(k, b"v", noreply=False)
+            except (OSError, MemcacheError):
+                pass                       # a refusing node: failover is C13's business
+            except Exception as e:
+                return "step %d: set(%r) failed with the internal error %s: %r" % (i, k, type(e).__name__, e), None
+        for remote, line in cl.contacts:
+            if remote not in advertised:
+                return "step %d: %r was sent to %r, which is not advertised (advertised: %r)" % (i, line, remote, advertised), None
+        for s in world.socks:
+            rem = getattr(s, "remote", None)
+            if rem and rem[0] != CFG_HOST and rem not in advertised and not s.closed:
+                return "step %d: the connection to the withdrawn node %r is still open" % (i, rem), None
+        nodes = sorted(client.hasher.nodes)
+        want = sorted("%s:%s" % a for a in set(advertised))
+        alive = [n for n in want if n not in ["%s:%s" % k for k in client._dead_clients]]
+        if not set(alive) <= set(nodes) or not set(nodes) <= set(want):
+            return "step %d: rotation %r, advertised %r" % (i, nodes, want), None
+        return None
     try:
-        client = None
-        advertised = []
         for i, st in enumerate(steps):
             if st[0] == "tick":
                 clock.last += st[1]
@@ -125,6 +153,17 @@ def run_scenario(sc):
             if st[0] == "refuse":
                 e = st[1]
                 world.refuse.add(((e[1] if use_vpc else e[0]), e[2]))
+                continue
+            if st[0] == "accept":
+                e = st[1]
+                world.refuse.discard(((e[1] if use_vpc else e[0]), e[2]))
+                continue
+            if st[0] == "traffic":
+                # calls between two reconfigurations (the timer thread is not the only thing that happens): the same observations
+                if client is not None:
+                    r = observe(i)
+                    if r:
+                        return r
                 continue
             cl.mode = "error" if st[0] == "error" else "ok"
             if st[0] == "adv":
@@ -150,28 +189,10 @@ def run_scenario(sc):
                 continue
             except Exception as e:
                 return "step %d (%s): failed with the internal error %s: %s" % (i, st[0], type(e).__name__, e), None
-            advertised = [((e[1] if use_vpc else e[0]), e[2]) for e in st[1]]
-            # every key goes to exactly one advertised node; nothing reaches a withdrawn node
-            cl.contacts = []
-            for k in KEYS:
-                try:
-                    client.set(k, b"v", noreply=False)
-                except (OSError, MemcacheError):
-                    pass                       # a refusing node: failover is C13's business
-                except Exception as e:
-                    return "step %d: set(%r) failed with the internal error %s: %r" % (i, k, type(e).__name__, e), None
-            for remote, line in cl.contacts:
-                if remote not in advertised:
-                    return "step %d: %r was sent to %r, which is not advertised (advertised: %r)" % (i, line, remote, advertised), None
-            for s in world.socks:
-                rem = getattr(s, "remote", None)
-                if rem and rem[0] != CFG_HOST and rem not in advertised and not s.closed:
-                    return "step %d: the connection to the withdrawn node %r is still open" % (i, rem), None
-            nodes = sorted(client.hasher.nodes)
-            want = sorted("%s:%s" % a for a in set(advertised))
-            alive = [n for n in want if n not in ["%s:%s" % k for k in client._dead_clients]]
-            if not set(alive) <= set(nodes) or not set(nodes) <= set(want):
-                return "step %d: rotation %r, advertised %r" % (i, nodes, want), None
+            advertised[:] = [((e[1] if use_vpc else e[0]), e[2]) for e in st[1]]
+            r = observe(i)
+            if r:
+                return r
         return None
     finally:
         H.time, A.time = saved
@@ -269,6 +290,68 @@ def real_history(vpc, reps):
     return results, list(client.hasher.nodes), list(client.clients), closed
 
 
+def failover_history_cases(ctx):
+    """reads of the configuration with failover bookkeeping in between: ('reply', bytes) | ('fail', entry) | ('evict', entry)"""
+    rng = random.Random(ctx.seed * 331 + 19)
+    out = []
+    for _ in range(80 if ctx.quick else 800):
+        vpc = rng.random() < 0.5
+        adv = rng.sample(UNIVERSE, rng.randrange(2, 6))
+        steps = [("reply", render(adv, 1))]
+        rot = list(adv)
+        for j in range(rng.randrange(2, 9)):
+            r = rng.random()
+            if r < 0.3 and rot:
+                steps.append(("fail", rng.choice(rot)))
+            elif r < 0.6 and rot:
+                e = rng.choice(rot)
+                rot.remove(e)
+                steps.append(("evict", e))
+            elif r < 0.7:
+                steps.append(("reply", b"ERROR\r\n\r\nEND\r\n"))
+            else:
+                if rng.random() < 0.6 and len(adv) > 1:
+                    adv = rng.sample(adv, rng.randrange(1, len(adv)))
+                else:
+                    extra = [u for u in UNIVERSE if u not in adv]
+                    adv = adv + rng.sample(extra, rng.randrange(0, min(3, len(extra)) + 1))
+                rot = list(adv)
+                steps.append(("reply", render(adv, j + 2)))
+        out.append((vpc, steps))
+    return out
+
+
+def real_failover_history(vpc, steps):
+    """-> (results of the reads, nodes, clients, failed keys, dead keys)"""
+    from pymemcache.client.ext.aws_ec_client import AWSElastiCacheHashClient
+    world = cs.World([], [], (), 1)
+    world.on_block = "SocketTimeout"
+    cur = [None]
+    world.addr_peer = lambda remote, data: cur[0]
+    client, results = None, []
+    for st in steps:
+        if st[0] == "reply":
+            cur[0] = st[1]
+            try:
+                if client is None:
+                    client = AWSElastiCacheHashClient(CFG_HOST + ":11211", socket_module=cs.FakeSocketModule(world), use_vpc=vpc, retry_attempts=5)
+                else:
+                    client.reconfigure_nodes()
+                results.append(("o", None))
+            except BaseException as e:  # noqa
+                results.append(("e", core.exn_name(e)))
+            continue
+        e = st[1]
+        server = ((e[1] if vpc else e[0]), e[2])
+        server = [k for k in (c.server for c in client.clients.values()) if (k[0], str(k[1])) == server][0]
+        if st[0] == "fail" or server not in client._failed_clients:
+            client._mark_failed_server(server)          # HashClient's own bookkeeping (retries left: a failure record only)
+        if st[0] == "evict":
+            client.remove_server(server)
+    key = client._make_client_key
+    return (results, sorted(client.hasher.nodes), list(client.clients), sorted(key(k) for k in client._failed_clients), sorted(key(k) for k in client._dead_clients))
+
+
 def raw_of(reply):
     """what raw_command does (C03, C06): the stream up to the first end token, checked for protocol error words;
     without the end token the read waits until the socket timeout"""
@@ -316,11 +399,27 @@ def correspondence(ctx):
                 continue
             dis.append({"what": "reconfiguration history", "use_vpc": v, "replies": [repr(r)[:80] for r in reps], "impl": repr(got)[:500],
                         "model": repr((exp_res, nodes, clients, closed))[:500]})
+    # histories with failure records and evictions between the reads: the failover tables after each history
+    fh = failover_history_cases(ctx)
+    name = lambda vpc, e: "%s:%s" % ((e[1] if vpc else e[0]), e[2])
+    fm = ctx.driver.call_many([(3, (v, [raw_of(st[1]) if st[0] == "reply" else (1 if st[0] == "fail" else 2, name(v, st[1])) for st in steps])) for v, steps in fh])
+    for (v, steps), m in zip(fh, fm):
+        got = real_failover_history(v, steps)
+        if m[0] != "ok":
+            dis.append({"what": "failover history", "model-error": repr(m)})
+            continue
+        rs, nodes, clients, closed, failed, dead = m[1]
+        exp = ([("o", None) if x[0] == "o" else ("e", core.EXN_NAMES[x[1]]) for x in rs], sorted(nodes), list(clients), sorted(failed), sorted(dead))
+        if got != exp:
+            dis.append({"what": "reconfiguration history with failover bookkeeping", "use_vpc": v, "steps": [repr(x)[:70] for x in steps],
+                        "impl (results, nodes, clients, failed, dead)": repr(got)[:600], "model": repr(exp)[:600]})
+    nh += len(fh)
     return {"evaluations": len(usable) + nh, "distinct_nontrivial": len(usable) + nh,
             "rule": "extracted model vs the real AWSElastiCacheHashClient: _get_nodes_list on 72 well-formed replies (1..6 nodes, both use_vpc "
                     "settings) and 28 malformed/erroneous ones (missing or extra fields, double spaces, empty node line, non-UTF-8, CR inside, "
                     "ERROR, SERVER_ERROR): same node list or same exception class; %d reconfiguration histories (1-5 reads of the configuration, "
-                    "15%% ERROR, 5%% malformed, repeated entries): per-call outcome, hasher nodes, clients (in order), closed client objects (in order)" % nh,
+                    "15%% ERROR, 5%% malformed, repeated entries): per-call outcome, hasher nodes, clients (in order), closed client objects (in order); of these, %d histories with failure "
+                    "records and evictions (HashClient's own _mark_failed_server / remove_server) between the reads: also the key sets of the two failover tables" % (nh, len(fh)),
             "samples": [{"use_vpc": v, "reply": repr(r)[:100]} for v, r, raw in usable[:3]],
             "distribution": {"parse_cases": len(usable), "history_cases": nh}, "disagreements": dis}
 
@@ -332,6 +431,15 @@ def search(ctx):
     fixed = [(True, [], [("adv", UNIVERSE[:3]), ("adv", UNIVERSE[1:2])]), (False, [1] * 300, [("adv", UNIVERSE[:2]), ("adv", UNIVERSE[2:5])]),
              (True, [], [("error",)]), (True, [], [("adv", UNIVERSE[:2]), ("error",), ("adv", UNIVERSE[:1])]),
              (True, [], [("adv", UNIVERSE[:3]), ("refuse", UNIVERSE[0]), ("adv", UNIVERSE[:3]), ("adv", UNIVERSE[1:3]), ("tick", 200), ("adv", UNIVERSE[1:3])])]
+    # a node that was evicted by the failover (it refuses connections) is then withdrawn by the endpoint; after dead_timeout, calls
+    # BETWEEN two reconfigurations must not bring it back
+    for vpc in (True, False):
+        for n_nodes in (2, 3, 5):
+            for victim in range(n_nodes):
+                nodes = UNIVERSE[:n_nodes]
+                rest = [x for j, x in enumerate(nodes) if j != victim]
+                fixed.append((vpc, [], [("adv", nodes), ("refuse", nodes[victim]), ("traffic",), ("adv", rest), ("accept", nodes[victim]), ("tick", 61), ("traffic",),
+                                        ("tick", 200), ("traffic",), ("adv", rest)]))
     for i in range(len(fixed) + (150 if ctx.quick else 2000)):
         sc = fixed[i] if i < len(fixed) else scenario(rng, ctx.quick)
         n += 1
